@@ -21,7 +21,9 @@ CLAUSES = (
     'points earlier than the cutoff; the DB key is written as [section]...key '
     'and parsed back with the matching section regex; every traversal of a '
     'nested settings dict (apply, key listing, clear, prune, change report) '
-    'visits all items. Not decided: equality of the effective config over '
+    'visits all items. '
+    'The recursive merge never stores a nested section of its source by reference. '
+    'Not decided: equality of the effective config over '
     'operation histories.')
 
 BM = 'broadcast_mgr'
@@ -113,6 +115,27 @@ def check(c):
         'source' in norm(n.value) for n in st)
     c.ob('C22.precedence', f'{ad.fq} :: source overrides target', ok,
          c.where(ad.node, ad), '')
+    # ... and never shares a nested section with its source: a dict value is
+    # merged into a fresh / existing dict of the target, only leaves are stored
+    # as they are (a stored section shared with the lookup result, or between
+    # the targets of one broadcast, is rewritten by the next merge / clear
+    # behind the DB's back)
+    for n in st:
+        v = norm(n.value)
+        if v in ('{}', 'dict()') or v.startswith(('deepcopy(', 'pdeepcopy(',
+                                                  'copy.deepcopy(')):
+            c.ob('C22.no-alias', c.key(n, ad) + ' fresh section', True,
+                 c.where(n, ad), '')
+        else:
+            c.guard('C22.no-alias', n, ['!isinstance(val, dict)'], ad,
+                    what='only leaf values are stored by reference;')
+    rec = c.find(ad, 'addict(target[key], val)')
+    c.floor('C22.no-alias', f'{ad.fq} :: recursive merge of sections',
+            len(rec), 1)
+    for n in rec:
+        c.guard('C22.no-alias', n, ['isinstance(val, dict)'], ad)
+        c.guard_only('C22.no-alias', n, ['isinstance(val, dict)'], ad,
+                     what='every nested section is merged, present or not;')
     lin = c.func('commands', 'reload_workflow')
     c.floor('C22.precedence', 'ancestors refreshed on reload', len([
         s for s in c.stores(lin, 'linearized_ancestors')]), 1)
@@ -270,6 +293,13 @@ def check(c):
 
 
 VARIANTS = [
+    ('addict-shares-new-sections', 'cylc/flow/broadcast_mgr.py',
+     '''        if isinstance(val, dict):
+            if key not in target:
+                target[key] = {}
+            addict(target[key], val)''',
+     '''        if isinstance(val, dict) and key in target:
+            addict(target[key], val)''', 'C22.no-alias'),
     ('no-db-on-clear', 'cylc/flow/broadcast_mgr.py',
      '        self.workflow_db_mgr.put_broadcast(modified_settings, is_cancel=True)\n',
      '        if modified_settings:\n            self.workflow_db_mgr.put_broadcast(modified_settings)\n',
